@@ -258,10 +258,32 @@ theorem behaviour_matches_mode (s : St) (hc : Consistent s) (o : Op) (b : Bool)
 theorem restart_base_wf (s : St) : MetaWF (restartBase s) := by
   show true = !noMetabase modeRW; decide
 
+/-- the close/open cycle without `Init` (engine maintenance): C14's extension of the model.  It opens every
+component for writing and does not re-apply the mode, so outside read-write it leaves reported and actual modes apart
+BY CONSTRUCTION until the next successful switch; the C43 statements below are about histories without it, except
+`reopen_consistent`. -/
+def Op.isReopen : Op → Bool
+  | .reopen => true
+  | _ => false
+
+/-- in read-write mode the close/open cycle keeps reported and actual modes in agreement -/
+theorem reopen_consistent (s : St) (hc : Consistent s) (hm : s.mode = modeRW) : Consistent (step s .reopen).1 := by
+  obtain ⟨c1, c2, c3, c4⟩ := hc
+  refine ⟨c1, ?_, ?_, ?_⟩
+  · show true = !noMetabase s.mode
+    rw [hm]; decide
+  · show false = isReadOnly s.mode
+    rw [hm]; decide
+  · intro hw
+    have hw' : s.hasWC = true := hw
+    show (if s.hasWC then modeRW else s.wcMode) = s.mode
+    rw [hw', hm]; rfl
+
 /-- **Consistency is kept** by every operation that is not a switch (requests, reads, GC pass, flush-worker pass,
 new-epoch handler, Restore) and re-established by every switch or restart that SUCCEEDS — from any reachable state,
 whatever failed before, and also when a failure was injected at a point the switch did not reach. -/
-theorem consistent_step (s : St) (hw : MetaWF s) (o : Op) (hc : o.isSwitch = false → Consistent s)
+theorem consistent_step (s : St) (hw : MetaWF s) (o : Op) (hr : o.isReopen = false)
+    (hc : o.isSwitch = false → Consistent s)
     (h : o.isSwitch = false ∨ (step s o).2 = .ok) : Consistent (step s o).1 := by
   cases hs : o.isSwitch
   · exact consistent_of_cfg _ _ (step_cfg s o hs) (hc hs)
@@ -280,9 +302,10 @@ theorem consistent_step (s : St) (hw : MetaWF s) (o : Op) (hc : o.isSwitch = fal
       · rename_i hm
         simp only [hm, Bool.false_eq_true, if_false] at hok
         exact setMode_recovers _ (restart_base_wf s) m .none hok
+    case reopen => simp [Op.isReopen] at hr
 
 /-- the metabase component stays coherent along EVERY history, injected failures included -/
-theorem metaWF_step (s : St) (hw : MetaWF s) (o : Op) : MetaWF (step s o).1 := by
+theorem metaWF_step (s : St) (hw : MetaWF s) (o : Op) (hr : o.isReopen = false) : MetaWF (step s o).1 := by
   cases hs : o.isSwitch
   · exact metaWF_of_cfg _ _ (step_cfg s o hs) hw
   · cases o <;> simp [Op.isSwitch] at hs
@@ -292,6 +315,7 @@ theorem metaWF_step (s : St) (hw : MetaWF s) (o : Op) : MetaWF (step s o).1 := b
       split
       · exact restart_base_wf s
       · exact (setMode_wf _ (restart_base_wf s) m .none).1
+    case reopen => simp [Op.isReopen] at hr
 
 /-- **A failed switch keeps the reported mode.** -/
 theorem failed_switch (s : St) (hw : MetaWF s) (m : Nat) (f : Fault) (hne : (setMode s m f).2 ≠ .ok) :
@@ -304,21 +328,24 @@ def settledRun : St × Bool → List Op → St × Bool
     let r := step st.1 o
     settledRun (r.1, if o.isSwitch then r.2 == .ok else st.2) os
 
-theorem settled_inv (ops : List Op) : ∀ (st : St × Bool), MetaWF st.1 → (st.2 = true → Consistent st.1) →
+theorem settled_inv (ops : List Op) : ∀ (st : St × Bool), (∀ o ∈ ops, o.isReopen = false) → MetaWF st.1 →
+    (st.2 = true → Consistent st.1) →
     MetaWF (settledRun st ops).1 ∧ ((settledRun st ops).2 = true → Consistent (settledRun st ops).1) := by
   induction ops with
-  | nil => intro st h1 h2; exact ⟨h1, h2⟩
+  | nil => intro st _ h1 h2; exact ⟨h1, h2⟩
   | cons o os ih =>
-    intro st h1 h2
+    intro st hnr h1 h2
+    have hr : o.isReopen = false := hnr o (by simp)
     simp only [settledRun]
     apply ih
-    · exact metaWF_step st.1 h1 o
+    · exact fun o' ho' => hnr o' (by simp [ho'])
+    · exact metaWF_step st.1 h1 o hr
     · intro hflag
       cases hs : o.isSwitch
       · simp only [hs, Bool.false_eq_true, if_false] at hflag
-        exact consistent_step st.1 h1 o (fun _ => h2 hflag) (Or.inl hs)
+        exact consistent_step st.1 h1 o hr (fun _ => h2 hflag) (Or.inl hs)
       · simp only [hs, if_true] at hflag
-        exact consistent_step st.1 h1 o (fun h => by rw [hs] at h; exact absurd h (by simp))
+        exact consistent_step st.1 h1 o hr (fun h => by rw [hs] at h; exact absurd h (by simp))
           (Or.inr (by simpa using hflag))
 
 theorem init_consistent (wc : Bool) : Consistent ({ hasWC := wc } : St) :=
@@ -329,11 +356,12 @@ background jobs, switches among all modes, restarts with a configured mode, and 
 any switch — whenever no switch has failed since the last successful one, every request of the mode table is
 accepted or rejected exactly as the reported mode says. -/
 theorem behaviour_matches_mode_partial (wc : Bool) (ops : List Op) (o : Op) (b : Bool)
+    (hnr : ∀ o ∈ ops, o.isReopen = false)
     (hsettled : (settledRun ({ hasWC := wc }, true) ops).2 = true)
     (ht : table (settledRun ({ hasWC := wc }, true) ops).1.mode (settledRun ({ hasWC := wc }, true) ops).1.hasWC o = some b) :
     rejected (step (settledRun ({ hasWC := wc }, true) ops).1 o).2 = b := by
   have hinit := init_consistent wc
-  have := settled_inv ops ({ hasWC := wc }, true) (consistent_metaWF _ hinit) (fun _ => hinit)
+  have := settled_inv ops ({ hasWC := wc }, true) hnr (consistent_metaWF _ hinit) (fun _ => hinit)
   exact behaviour_matches_mode _ (this.2 hsettled) o b ht
 
 theorem settledRun_fst (ops : List Op) : ∀ st : St × Bool, (settledRun st ops).1 = run st.1 ops := by
